@@ -53,7 +53,15 @@ func (s *MapLiteralVisitor) EnterOC_Expression(ctx *parser.OC_ExpressionContext)
 }
 
 func (s *MapLiteralVisitor) ExitOC_Expression(ctx *parser.OC_ExpressionContext) {
-	s.Map[s.nextPropertyKey] = s.ctx.Exit().(*ExpressionVisitor).Expression
+	expression := s.ctx.Exit().(*ExpressionVisitor).Expression
+
+	// The model holds one value per key. A repeated key can not be represented and keeping only one of its values
+	// would leave part of the query out without a word
+	if _, isRepeated := s.Map[s.nextPropertyKey]; isRepeated {
+		s.ctx.AddErrors(fmt.Errorf("map literal repeats the key %q", s.nextPropertyKey))
+	}
+
+	s.Map[s.nextPropertyKey] = expression
 }
 
 type ListLiteralVisitor struct {
